@@ -70,6 +70,7 @@ IdStr = z3.Function("IdStr", Val, S)          # str(id(v))
 FmtOpaque = {}                                # format string -> uninterpreted function
 
 TYPEBASE = 5_000_000       # ref of the class object of class id c is TYPEBASE + c
+ENUM_BASE = 900_000
 ALLOC_BASE = 1_000_000     # refs allocated on a path are concrete numerals >= ALLOC_BASE
 HOST_CLASS_BASE = 10_000   # class ids >= this are unknown host classes
 
@@ -155,6 +156,19 @@ class ClassTable:
                 ps = [self.ids["object"]]
             self.parents[c.cid] = ps
         self._anc = {}
+        # enum members: fixed refs below ALLOC_BASE so that pre-existing objects can refer to them
+        self.enum_refs = {}      # (cid, member) -> ref
+        self.enum_by_ref = {}
+        for c in allc:
+            ext = []
+            for b in index.class_bases(c):
+                if not hasattr(b, "cid"):
+                    ext.append(b[1].split(".")[-1])
+            if "Enum" in ext:
+                for i, m in enumerate(c.class_attrs):
+                    ref = ENUM_BASE + (c.cid - 200) * 20 + i
+                    self.enum_refs[(c.cid, m)] = ref
+                    self.enum_by_ref[ref] = (c.cid, m)
 
     def id(self, name):
         return self.ids[name]
@@ -220,6 +234,10 @@ class Explorer:
         self.timeout_ms = timeout_ms
         self.max_paths = max_paths
         self.stack = []
+        self.solver = z3.Solver()
+        self.solver.set("timeout", timeout_ms)
+        for a in axioms:
+            self.solver.add(a)
         self.obligations = {}     # name -> dict(kind, vcs, failed:list[Failure], time)
         self.n_paths = 0
         self.solver_time = 0.0
@@ -233,10 +251,13 @@ class Explorer:
             if self.n_paths > self.max_paths:
                 raise Unsupported("path budget exceeded (%d)" % self.max_paths)
             ctx = PathCtx(self, [list(d) for d in self.stack])
+            self.solver.push()
             try:
                 run_one(ctx)
-            except PathAbort:
-                pass
+            except PathAbort as pa:
+                self.notes.append(str(pa))
+            finally:
+                self.solver.pop()
             self.stack = ctx.trace
             while self.stack and not self.stack[-1][1]:
                 self.stack.pop()
@@ -259,10 +280,7 @@ class PathCtx:
         self.prefix = prefix
         self.trace = []
         self.pos = 0
-        self.solver = z3.Solver()
-        self.solver.set("timeout", explorer.timeout_ms)
-        for a in explorer.axioms:
-            self.solver.add(a)
+        self.solver = explorer.solver
         self.pc = []
         self._fresh = itertools.count()
         self.labels = []
@@ -310,7 +328,7 @@ class PathCtx:
                 feas.append(i)
         if not feas:
             self.trace.append([0, []])
-            raise PathAbort("infeasible")
+            raise PathAbort("infeasible at choose(%s)" % label)
         first, rest = feas[0], feas[1:]
         self.trace.append([first, rest])
         self.assume(conds[first])
@@ -324,6 +342,18 @@ class PathCtx:
             return False
         return self.choose([c, z3.Not(c)], label) == 0
 
+    def memo(self, compute):
+        """Result of a solver query that does not fork; replayed from the trace on later paths."""
+        p = self.pos
+        self.pos += 1
+        if p < len(self.prefix):
+            d = self.prefix[p]
+            self.trace.append(d)
+            return d[0]
+        v = compute()
+        self.trace.append([v, []])
+        return v
+
     def must(self, cond):
         """Is cond implied by the path condition?"""
         c = z3.simplify(cond)
@@ -331,13 +361,16 @@ class PathCtx:
             return True
         if z3.is_false(c):
             return False
-        return self._check(z3.Not(c)) == z3.unsat
+        return self.memo(lambda: self._check(z3.Not(c)) == z3.unsat)
 
     def value_of(self, term):
         """Concrete python value of an Int term if the path condition determines it uniquely."""
         t = z3.simplify(term)
         if z3.is_int_value(t):
             return t.as_long()
+        return self.memo(lambda: self._value_of(t))
+
+    def _value_of(self, t):
         if self._check() != z3.sat:
             return None
         v = self.solver.model().eval(t, model_completion=True)
@@ -346,6 +379,29 @@ class PathCtx:
         if self._check(t != v) == z3.unsat:
             return v.as_long()
         return None
+
+    def possible_ints(self, term, cap=12):
+        """Feasible concrete values of an Int term, without committing to one (None if more than cap)."""
+        t = z3.simplify(term)
+        if z3.is_int_value(t):
+            return [t.as_long()]
+        return self.memo(lambda: self._possible_ints(t, cap))
+
+    def _possible_ints(self, t, cap):
+        vals = []
+        self.solver.push()
+        try:
+            while len(vals) <= cap:
+                if self._check() != z3.sat:
+                    break
+                v = self.solver.model().eval(t, model_completion=True)
+                if not z3.is_int_value(v):
+                    return None
+                vals.append(v.as_long())
+                self.solver.add(t != v)
+        finally:
+            self.solver.pop()
+        return None if len(vals) > cap else vals
 
     def enum_int(self, term, cap=12, label=""):
         """Case split over the feasible concrete values of an Int term (finite by the path condition)."""
@@ -534,6 +590,9 @@ class State:
         self.ghost = {}
         self.fresh_refs = set()
         self.globals_store = {}  # (module, name) -> term for mutable module globals / class attrs
+        for ref, (cid, m) in table.enum_by_ref.items():
+            ctx.assume(z3.Select(self.typeof, z3.IntVal(ref)) == z3.IntVal(cid))
+            ctx.assume(z3.Select(self.field_arr("name"), z3.IntVal(ref)) == VStr(m))
 
     # -- snapshot for old()
     def snapshot(self):
